@@ -280,3 +280,4 @@ def post(S):
     from . import C13_bounded
 
     C13_bounded.run(S)
+    C13_bounded.grid_pairs(S)
